@@ -4,11 +4,12 @@
     store/fs.rs / lock.rs / util.rs as monadic programs; [Kill k] = the process dies on entering
     its (k+1)-th file-system call).  [commit_pre] is the tree-level StagedWF of DESIGN.md Appendix D
     plus a sane configuration and a valid main object; [same_type] excludes the declaration swap
-    of an upgrade (see Props/C04.v for that known finding).  The theorems hold for EVERY position
+    of an upgrade; [C05_kill_safe_any_type] at the end of this file covers it as well.  The theorems hold for EVERY position
     k (no bound) and every tree. *)
 From Coq Require Import List NArith Bool.
 From Rocfl Require Import Base.Bytes Model.FsOps Model.FsTree Model.Commit 
-  Proofs.CommitPre Proofs.CommitPhases Corr.CheckCommit.
+  Proofs.CommitPre Proofs.CommitPhases Corr.CheckCommit
+  Proofs.CommitUpgradeDefs Proofs.CommitUpgradeInv Proofs.CommitUpgradeRun Proofs.CommitUpgradeWitness.
 Import ListNotations.
 
 (** (i) every version directory committed before is unchanged (content and inventory copy),
@@ -58,4 +59,46 @@ Example C05_staged_inventory_refs_exist :
              || (obj_validb ex_cfg (w_tree (snd r)) ex_mo
                  && same_underb ex_mo (w_tree (snd r)) (run_tree (commit ex_cfg) exm_tree NoInj)))
           (List.seq 0 45) = true.
+Proof. vm_compute. repeat split. Qed.
+
+(** * commits that change the inventory type as well (the tail of upgrade_object on an existing object)
+
+    After the version directory is installed and the root inventory pair copied, write_new_version creates the new
+    declaration (open O_CREAT|O_EXCL, write) and unlinks the old one (fs.rs:524-529).  A kill can therefore also
+    leave: the new inventory without its declaration, with an empty declaration, or with BOTH declarations - all
+    three rejected by the validator (E003 / E007 declaration missing or wrong, E001 unexpected file in the object
+    root); after the unlink the object is the new one.  [decl_swap_ok] (Proofs/CommitUpgradeDefs.v) replaces
+    [same_type]: see Props/C04.v. *)
+Theorem C05_kill_safe_any_type :
+  forall (c : cfg) (t0 : tree) (i0 : invr),
+    commit_pre c t0 i0 -> decl_swap_ok c t0 i0 ->
+    forall k : nat,
+      let t' := run_tree (commit c) t0 (Kill k) in
+      let tnew := run_tree (commit c) t0 NoInj in
+      versions_intact c (earlier_versions i0) t0 t' /\ content_somewhere c i0 t0 t' /\
+      (same_at (c_mo c) t' t0 \/ same_at (c_mo c) t' tnew \/ obj_validb c t' (c_mo c) = false).
+Proof. exact commit_kill_safe_any_type. Qed.
+Print Assumptions C05_kill_safe_any_type.
+
+(** without the first conjunct of [decl_swap_ok] clause (iii) fails in the model (a version directory named like a
+    declaration file: the fault-free commit itself fails on it after removing the old declaration) *)
+Theorem C05_hypothesis_plain_versions_needed :
+  exists c t i k,
+    commit_pre c t i /\ NoDup (find_decls t (c_mo c)) /\
+    let t' := run_tree (commit c) t (Kill k) in
+    let tnew := run_tree (commit c) t NoInj in
+    ~ (same_at (c_mo c) t' t \/ same_at (c_mo c) t' tnew \/ obj_validb c t' (c_mo c) = false).
+Proof. exact C05_any_type_needs_plain_versions. Qed.
+Print Assumptions C05_hypothesis_plain_versions_needed.
+
+(** non-vacuity: the hypotheses hold for the commit that completes the upgrade 1.0 -> 1.1 of an existing object
+    ([same_type] does not), and all three classes of clause (iii) occur among its kill positions: old (0-17),
+    rejected by the validator (18-28: 18 the version directory moved, 19-24 during the two inventory copies, 25-26 the
+    new inventory pair without its declaration, 27 the new declaration still empty, 28 both declarations), new (29-) *)
+Example C05_any_type_nonvacuous :
+  commit_pre_b ex_cfg (ex_tree ex_d11) (ex_inv ex_d11) = true /\
+  same_type_b ex_cfg (ex_tree ex_d11) (ex_inv ex_d11) = false /\
+  decl_swap_ok_b ex_cfg (ex_tree ex_d11) (ex_inv ex_d11) = true /\
+  map fst (sweep (commit ex_cfg) ex_cfg (ex_tree ex_d11) Kill 36) =
+    [0; 0; 0; 0; 0; 0; 0; 0; 0; 0; 0; 0; 0; 0; 0; 0; 0; 0; 2; 2; 2; 2; 2; 2; 2; 2; 2; 2; 2; 1; 1; 1; 1; 1; 1; 1]%N.
 Proof. vm_compute. repeat split. Qed.
